@@ -95,7 +95,7 @@ def steps_from_dump(path):
         if ch:
             steps.append(dict(base, p=ch[0], **{"from": a["pc"][ch[0]], "to": b["pc"][ch[0]]}))
         elif a != b:
-            steps.append(dict(base, p="loop", **{"from": "Tick", "to": "Tick"}))
+            steps.append(dict(base, p="loop", **{"from": a["pc"]["loop"], "to": a["pc"]["loop"]}))   # Tick->Tick drain, Pop->Pop skip
     return steps, states[-1]
 
 
@@ -134,10 +134,12 @@ def script_from_steps(steps, prios):
                 s.append({"op": "await", "point": "q.requeued", "id": st["cur"]})
                 s.append({"op": "await", "point": "q.loop_tick"})
         elif p == "watcher":
+            # the real watcher works through the expired requests in an order of its own (map iteration): whichever
+            # expired request it holds is let through (the model's choice among several expired ones is not forced)
             if fr == "Scan":
-                s.append({"op": "await", "point": "q.before_signal.timeout", "id": st["w"]})
+                s.append({"op": "await", "point": "q.before_signal.timeout", "id": ""})
             elif fr == "Signal":
-                s.append({"op": "pass", "point": "q.before_signal.timeout", "id": st["w"]})
+                s.append({"op": "pass", "point": "q.before_signal.timeout", "id": ""})
         elif p == "shutdown":
             s.append({"op": "shutdown"})
             cancelled = True
@@ -214,9 +216,11 @@ def observed_events(hist):
 
 
 def same_modulo_verdict_position(a, b):
-    """the return of a call is not gated: compare the sequences without verdicts, and the verdicts as sets."""
-    fa, fb = [x for x in a if x[0] != "verdict"], [x for x in b if x[0] != "verdict"]
-    va, vb = {x for x in a if x[0] == "verdict"}, {x for x in b if x[0] == "verdict"}
+    """the return of a call is not gated: compare the sequences without verdicts, and the verdicts as sets.  `pick` is
+    stamped when the loop reaches its yield point, the model emits it when the pop is taken: its position is not compared."""
+    free = ("verdict", "pick", "expire")        # ... and the order in which several expired requests are signalled
+    fa, fb = [x for x in a if x[0] not in free], [x for x in b if x[0] not in free]
+    va, vb = {x for x in a if x[0] in ("verdict", "expire")}, {x for x in b if x[0] in ("verdict", "expire")}
     return fa == fb and va <= vb
 
 
@@ -522,20 +526,26 @@ def run(ctx):
     scs = [directed_scenario(n, VARIANTS[n][0], variants[n][0]) for n in names]
     # ---- (3) spec -> code: walks of the model of the code as it is, forced
     nw = 24 if not T else 160
-    g = ctx.tlc(sd, "GenC06", "GenC06.cfg", workers=1, simulate="num=%d" % nw, depth=150, extra=["-seed", str(ctx.seed)],
-                timeout=900, label="schedule generation (walks of FlowQueueI)")
-    walks = tlc_vh_lines(g.out)
-    walks.sort(key=len, reverse=True)
-    keep = []
-    for wk in walks:                               # a walk printed at quiescence and again later: keep the longest
-        if not any(k[:len(wk)] == wk for k in keep):
-            keep.append(wk)
-    walks = keep[: nw]
-    if len(walks) < nw // 3:
-        raise Broken("schedule generation produced %d walks: %s" % (len(walks), g.out[-1500:]))
-    geninst = dict(SMALL3, QueueSize=2, QMax=1, QW=1, TTL=2, Prio="cPrio3")
+    walks = []
+    walkinst = []
+    # normal operation with a 2-tick quota window (blocked attempts, requeues, expiry) / shutdown at any point (constants as in the cfgs)
+    for gi, (gcfg, ginst) in enumerate([("GenC06_run.cfg", dict(SMALL3, QueueSize=2, QMax=1, QW=2, TTL=2, Prio="cPrio3")),
+                                        ("GenC06.cfg", dict(SMALL3, QueueSize=2, QMax=1, QW=1, TTL=2, Prio="cPrio3"))]):
+        n = nw * 2 // 3 if gi == 0 else nw - nw * 2 // 3
+        g = ctx.tlc(sd, "GenC06", gcfg, workers=1, simulate="num=%d" % n, depth=150, extra=["-seed", str(ctx.seed + gi)],
+                    timeout=900, label="schedule generation (walks of FlowQueueI, %s)" % gcfg)
+        ws = tlc_vh_lines(g.out)
+        ws.sort(key=len, reverse=True)
+        keep = []
+        for wk in ws:                               # a walk printed at quiescence and again later: keep the longest
+            if not any(k[:len(wk)] == wk for k in keep):
+                keep.append(wk)
+        if len(keep) < n // 3:
+            raise Broken("schedule generation %s produced %d walks: %s" % (gcfg, len(keep), g.out[-1500:]))
+        walks += keep[:n]
+        walkinst += [ginst] * len(keep[:n])
     for i, wk in enumerate(walks):
-        scs.append(directed_scenario("walk-%d" % i, geninst, wk))
+        scs.append(directed_scenario("walk-%d" % i, walkinst[i], wk))
         names.append("walk-%d" % i)
     nb = 6 if not T else 30
     for k in range(nb):
@@ -600,12 +610,18 @@ def run(ctx):
         kq = max(i for i, e in enumerate(base[:k]) if e["ev"] == "quota" and e["id"] == base[k]["id"])
         bad1 = [dict(e) for e in base]
         bad1[kq]["ok"] = False                                   # admitted although the quota said no
-        bad2 = [e for i, e in enumerate(base) if not (e["ev"] == "verdict" and e["id"] == base[k]["id"])]   # verdict dropped
-        bad3 = [dict(e) for e in base] + [{"ev": "crash", "rc": 2, "msg": "injected"}]
-        res = judge(ctx, [bad1, bad2, bad3], "selftest")
-        if res[0] is None or res[0][1] != "T_OnlyIfQuota" or res[1] is None or res[2] is None:
-            raise Broken("self-test: corrupted recordings accepted: %r" % (res,))
-        ctx.notes.append("self-test: quota answer flipped -> %s, verdict dropped -> %s, crash appended -> %s" % (res[0][1], res[1][1], res[2][1]))
+        bad2 = [e for i, e in enumerate(base) if i != kq]        # the quota's consent dropped
+        bad3 = [dict(e) for e in base if not (e["ev"] == "verdict" and e["id"] == base[k]["id"])]   # verdict dropped:
+        bad3[-1]["t"] = base[0]["ttl"] + base[0]["slack"] + max(e.get("t", 0) for e in base) + 1    # ... never answered
+        bad4 = [dict(e) for e in base] + [{"ev": "crash", "rc": 2, "msg": "injected"}]
+        bad5 = [dict(e) for e in base[:k + 1]] + [dict(base[k])] + [dict(e) for e in base[k + 1:]]  # decided twice
+        res = judge(ctx, [bad1, bad2, bad3, bad4, bad5], "selftest")
+        want = ["T_OnlyIfQuota", "T_OnlyIfQuota", "T_InTTL", "T_NoCrash", "T_OneVerdict"]
+        got = [r[1] if r else None for r in res]
+        if got != want:
+            raise Broken("self-test: corrupted recordings not rejected as expected: %r (want %r)" % (got, want))
+        ctx.notes.append("self-test: quota answer flipped / quota event dropped / verdict dropped / crash appended / decision "
+                         "duplicated -> rejected with %s" % ", ".join(got))
 
 
 def replay(ctx, path):
